@@ -314,6 +314,9 @@ def parse_operation_type_definition(
     """
     if not operation_type_definition_node:
         return
+    schema.declared_operation_types.add(
+        operation_type_definition_node.operation_type
+    )
     setattr(
         schema,
         f"{operation_type_definition_node.operation_type}_operation_name",
